@@ -47,6 +47,7 @@ type unit struct {
 	locks    bool            // takes a lock itself (directly)
 	access   map[string]bool // mutexes of guarded fields it touches directly
 	calls    []string        // same-package callees (unit names)
+	waits    bool            // waits for a peer itself (network read/write, HTTP request, sleep)
 }
 
 type lockWalker struct {
@@ -54,6 +55,10 @@ type lockWalker struct {
 	pkg   string
 	units map[string]*unit
 	order []string
+
+	ifaceInit bool
+	connIface *types.Interface // net.Conn
+	rwIface   *types.Interface // net/http.ResponseWriter
 }
 
 func recvInfo(fd *ast.FuncDecl) (typ, v string) {
@@ -228,6 +233,135 @@ func (w *lockWalker) simple(u *unit, n ast.Node, out *[]string) {
 		*out = append(*out, "CALL:"+c)
 		u.calls = append(u.calls, c)
 	}
+	// a call that waits for a peer is held to the rule for calls that take locks: nothing may be held
+	if w.peerCallsIn(n) > 0 {
+		*out = append(*out, ".callLocking")
+		u.waits = true
+	}
+}
+
+// findImport looks a package up among the transitive imports of p.
+func findImport(p *packages.Package, path string) *types.Package {
+	seen := map[string]bool{}
+	var walk func(q *packages.Package) *types.Package
+	walk = func(q *packages.Package) *types.Package {
+		if q == nil || seen[q.PkgPath] {
+			return nil
+		}
+		seen[q.PkgPath] = true
+		if q.PkgPath == path && q.Types != nil {
+			return q.Types
+		}
+		for _, im := range q.Imports {
+			if r := walk(im); r != nil {
+				return r
+			}
+		}
+		return nil
+	}
+	return walk(p)
+}
+
+func ifaceOf(pk *types.Package, name string) *types.Interface {
+	if pk == nil {
+		return nil
+	}
+	o := pk.Scope().Lookup(name)
+	if o == nil {
+		return nil
+	}
+	i, _ := o.Type().Underlying().(*types.Interface)
+	return i
+}
+
+// methods of a connection or of a response writer that do not wait for the peer
+var peerQuiet = map[string]bool{"SetDeadline": true, "SetReadDeadline": true, "SetWriteDeadline": true, "Close": true,
+	"RemoteAddr": true, "LocalAddr": true, "Header": true}
+
+// isPeerValue: the expression is a network connection, an HTTP response writer, or the body of an HTTP
+// request or response: reading from it or writing to it lasts as long as the peer likes.
+func (w *lockWalker) isPeerValue(e ast.Expr) bool {
+	t := w.p.TypesInfo.TypeOf(e)
+	if t == nil {
+		return false
+	}
+	if w.connIface == nil && !w.ifaceInit {
+		w.ifaceInit = true
+		w.connIface = ifaceOf(findImport(w.p, "net"), "Conn")
+		w.rwIface = ifaceOf(findImport(w.p, "net/http"), "ResponseWriter")
+	}
+	for _, i := range []*types.Interface{w.connIface, w.rwIface} {
+		if i != nil && types.Implements(t, i) {
+			return true
+		}
+	}
+	if se, ok := e.(*ast.SelectorExpr); ok && se.Sel.Name == "Body" {
+		if xt := w.p.TypesInfo.TypeOf(se.X); xt != nil {
+			s := xt.String()
+			return s == "*net/http.Request" || s == "*net/http.Response"
+		}
+	}
+	return false
+}
+
+// isPeerCall: a call that waits for a peer or for time to pass. Holding a mutex across such a call lets
+// a slow or silent peer stop every other user of that mutex.
+func (w *lockWalker) isPeerCall(c *ast.CallExpr) bool {
+	var obj types.Object
+	var recv ast.Expr
+	switch f := c.Fun.(type) {
+	case *ast.SelectorExpr:
+		obj = w.p.TypesInfo.Uses[f.Sel]
+		if sel, ok := w.p.TypesInfo.Selections[f]; ok && sel.Kind() == types.MethodVal {
+			recv = f.X
+		}
+	case *ast.Ident:
+		obj = w.p.TypesInfo.Uses[f]
+	}
+	fn, _ := obj.(*types.Func)
+	if fn == nil {
+		return false
+	}
+	name := fn.Name()
+	pkgPath := ""
+	if fn.Pkg() != nil {
+		pkgPath = fn.Pkg().Path()
+	}
+	switch {
+	case pkgPath == "net/http" && (name == "Get" || name == "Post" || name == "PostForm" || name == "Head" || name == "Do"):
+		return true
+	case pkgPath == "net" && strings.HasPrefix(name, "Dial"):
+		return true
+	case name == "Sleep":
+		return true
+	}
+	if recv != nil {
+		return w.isPeerValue(recv) && !peerQuiet[name]
+	}
+	for _, a := range c.Args {
+		if w.isPeerValue(a) {
+			return true
+		}
+	}
+	return false
+}
+
+// peerCallsIn counts the calls inside n (function literals excluded) that wait for a peer.
+func (w *lockWalker) peerCallsIn(n ast.Node) int {
+	k := 0
+	if n == nil {
+		return 0
+	}
+	ast.Inspect(n, func(m ast.Node) bool {
+		if _, ok := m.(*ast.FuncLit); ok {
+			return false
+		}
+		if c, ok := m.(*ast.CallExpr); ok && w.isPeerCall(c) {
+			k++
+		}
+		return true
+	})
+	return k
 }
 
 func (w *lockWalker) block(u *unit, list []ast.Stmt) []string {
@@ -349,7 +483,7 @@ func emitLocks(ld *loaded, report *[]string) string {
 		// transitive: does a unit take locks (itself or through same-receiver calls)?
 		locking := map[string]bool{}
 		for n, u := range w.units {
-			locking[n] = u.locks
+			locking[n] = u.locks || u.waits
 		}
 		for changed := true; changed; {
 			changed = false
